@@ -88,3 +88,66 @@ func verifResizeScript(nsteps int) {
 
 func VerifH_C13_api_resize1() { verifResizeScript(1) }
 func VerifH_C13_api_resize2_thorough() { verifResizeScript(2) }
+
+// rank 2 with mixed maximum dimensions ([Unlimited, m] / [m, Unlimited] / fixed): accept within, reject beyond; shape and values after reopen
+func VerifH_C13_api_resize_rank2() {
+	d0, d1 := 1+vrt.Choice(2), 1+vrt.Choice(2)
+	var m0, m1 uint64
+	switch vrt.Choice(3) {
+	case 0:
+		m0, m1 = Unlimited, uint64(d1+vrt.Choice(2))
+	case 1:
+		m0, m1 = uint64(d0+vrt.Choice(2)), Unlimited
+	default:
+		m0, m1 = uint64(d0+vrt.Choice(2)), uint64(d1+vrt.Choice(2))
+	}
+	fw, err := CreateForWrite("c13r2.h5", CreateTruncate)
+	vrt.AssertNoErr(err, "create-ok")
+	ds, err := fw.CreateDataset("/d", Int32, []uint64{uint64(d0), uint64(d1)}, WithChunkDims([]uint64{1, 1}), WithMaxDims([]uint64{m0, m1}))
+	vrt.AssertNoErr(err, "create-dataset-ok")
+	model := make([]int32, d0*d1)
+	for i := range model {
+		model[i] = vrt.I32()
+	}
+	vrt.AssertNoErr(ds.Write(model), "write-ok")
+	n0, n1 := 1+vrt.Choice(4), 1+vrt.Choice(4)
+	err = ds.Resize([]uint64{uint64(n0), uint64(n1)})
+	within := (m0 == Unlimited || uint64(n0) <= m0) && (m1 == Unlimited || uint64(n1) <= m1)
+	if within {
+		vrt.AssertNoErr(err, "resize-within-max-accepted")
+	} else {
+		vrt.Assert(err != nil, "resize-beyond-max-rejected")
+	}
+	shape0, shape1 := d0, d1
+	if err == nil {
+		nm := make([]int32, n0*n1)
+		for i := 0; i < n0 && i < d0; i++ {
+			for j := 0; j < n1 && j < d1; j++ {
+				nm[i*n1+j] = model[i*d1+j]
+			}
+		}
+		model = nm
+		shape0, shape1 = n0, n1
+		if vrt.Bool() {
+			for i := range model {
+				model[i] = vrt.I32()
+			}
+			vrt.AssertNoErr(ds.Write(model), "rewrite-ok")
+		}
+	}
+	vrt.AssertNoErr(fw.Close(), "close-ok")
+	f, err := Open("c13r2.h5")
+	vrt.AssertNoErr(err, "reopen-ok")
+	d := verifFindDataset(f, "/d")
+	vrt.Assert(d != nil, "dataset-found-at-path")
+	got, err := d.Read()
+	vrt.AssertNoErr(err, "read-after-resize-ok")
+	vrt.Assert(len(got) == shape0*shape1, "shape-is-last-requested")
+	if len(got) == len(model) {
+		for i := range model {
+			vrt.Assert(got[i] == float64(model[i]), "values-after-resize")
+		}
+	}
+	vrt.Covered("resize-compared")
+	_ = f.Close()
+}
